@@ -188,6 +188,11 @@ impl E {
 pub fn optional_rng_wrap(rng: Option<&mut Rng>) -> (r: Rng)
     ensures r.present@ == (rng is Some && old(rng->Some_0).present@), rng is Some ==> (r.id == old(rng->Some_0).id && r.pos == old(rng->Some_0).pos)
 { unimplemented!() }
+// `rng.expect(..)` on Option<&mut dyn RngCore>: the generator itself (by value: same stream identity and position); None aborts
+#[verifier::external_body]
+pub fn expect_rng(rng: Option<&mut Rng>) -> (r: Rng)
+    ensures rng is Some, r.present@ == old(rng->Some_0).present@, r.id == old(rng->Some_0).id, r.pos == old(rng->Some_0).pos
+{ unimplemented!() }
 impl G2 {
     #[verifier::external_body] pub fn msm_bigint(bases: &[G2Affine], bigints: &[BigInt]) -> (r: G2)
         ensures r@ == dot(g2views(bases@), bviews(bigints@), min(bases@.len(), bigints@.len())) { unimplemented!() }
